@@ -872,8 +872,10 @@ static int dt_load(struct module_data *m, HIO_HANDLE *f, const int start)
 	ret |= libxmp_iff_register(handle, "DAIT", get_dait);
 	ret |= libxmp_iff_register(handle, "TEXT", get_text);
 
-	if (ret != 0)
+	if (ret != 0) {
+		libxmp_iff_release(handle);
 		return -1;
+	}
 
 	/* Load IFF chunks */
 	ret = libxmp_iff_load(handle, m, f , &data);
